@@ -8,6 +8,7 @@ R5 custom headers of read / do_readdir
 R6 notification messages
 R1 (cont.) version-dependent reply arms are taken under exactly the protocol-version facts of the protocol (pre-7.4 negative lookup); no other reply depends on the version
 R1-layout field offsets and sizes of every reply struct equal the kernel's (C13.R1 restricted to reply structs)
+R2-copy-loop (shared with C04) reply bytes reach guest memory in order
 """
 import json
 import re
